@@ -14,6 +14,7 @@ import (
 	"fmt"
 	"os"
 	"regexp"
+	"runtime/debug"
 	"runtime/pprof"
 	"sort"
 	"strings"
@@ -189,8 +190,10 @@ func normErr(err error) string {
 	return s
 }
 
-// runWorld builds one world under every selection through the API and checks each outcome.
-func (rn *runner) runWorld(phase string, s *Spec, w *World, sels []Selection, directFor func([]string) *Direct) {
+// runWorld builds one world under every selection through the API and checks each outcome. It returns the signatures
+// reported per selection (key Selection.String()).
+func (rn *runner) runWorld(phase string, s *Spec, w *World, sels []Selection, directFor func([]string) *Direct) map[string]map[string]bool {
+	reported := map[string]map[string]bool{}
 	cnt := counters{}
 	defer rn.merge(cnt)
 	files := w.BucketFiles()
@@ -232,6 +235,12 @@ func (rn *runner) runWorld(phase string, s *Spec, w *World, sels []Selection, di
 		exp := &expectation{world: w, targets: targets, direct: direct}
 		vs := checkImage("api", exp, obs, cnt)
 		report(rn.r, vs, mkCase())
+		for _, v := range vs {
+			if reported[sel.String()] == nil {
+				reported[sel.String()] = map[string]bool{}
+			}
+			reported[sel.String()][v.sig] = true
+		}
 		if len(obs) >= 2 {
 			rn.r.Distinct(phase + "|" + specKey(s) + "|" + sel.String())
 		}
@@ -245,6 +254,7 @@ func (rn *runner) runWorld(phase string, s *Spec, w *World, sels []Selection, di
 			cnt.add("selection_module_dir_input", 1)
 		}
 	}
+	return reported
 }
 
 // prepare renders a spec, runs the bare compiler over all files and cross-checks the two reference sides. The
@@ -354,6 +364,16 @@ func selections(w *World, mode int, nope bool) []Selection {
 func run(r *evid.Run) {
 	rn := &runner{r: r, ctx: context.Background(), cnt: counters{}}
 	quick := r.Quick()
+	// The run allocates a lot (every case compiles a workspace twice) with a small live heap: a quarter of the CPU time
+	// is the collector at the default setting. Collect less often while this check runs, unless GOGC was set by the user.
+	// (Quick tier only: the thorough tier has a large live heap and no CPU problem.)
+	if quick {
+		if old := debug.SetGCPercent(250); old != 100 {
+			debug.SetGCPercent(old)
+		} else {
+			defer debug.SetGCPercent(old)
+		}
+	}
 	if p := os.Getenv("C01_CPUPROFILE"); p != "" { // debugging aid
 		if f, err := os.Create(p); err == nil {
 			if pprof.StartCPUProfile(f) == nil {
@@ -366,11 +386,12 @@ func run(r *evid.Run) {
 		"and WKT import variant in {none, Any used last, Any unused first, descriptor.proto used by a custom option with a message literal + unused timestamp.proto}; quick 2 of 16 decorations per world, thorough all 16) " +
 		"x every input directory (workspace root, each module directory). phase paths: the 25 DAG shapes on 3 files x kind rotation x assignments x every --path subset (size<=2) and --exclude-path subset (size<=1) " +
 		"over {every file, every directory, one non-existing path} (quick: 2 assignments per shape, two paths only without exclude; thorough: all 8 assignments, full product on 4 of them). " +
-		"phase shadow: workspaces that supply their own google/protobuf/any.proto. phase remote: every DAG on 2..3 files (plain/public) x every split in which one part is a registry dependency pinned at a commit. phase dup: one path present in two modules. phase cli: `buf build <dir> -o -#format=binpb` with path selections on scratch directories, output decoded without bufimage. " +
+		"phase shadow: workspaces that supply their own google/protobuf/any.proto. phase remote: every DAG on 2..3 files (plain/public) x every split in which one part is a registry dependency pinned at a commit. phase dup: one path present in two modules (an ordinary path; the path of a well-known type). phase fault: the shadow worlds (the module supplies any.proto and timestamp.proto) x input directory x every file of the bucket x {Stat, Get, Read fails} x {EIO, EACCES} (quick: half of the two-file worlds, persistent faults, the error values alternate; thorough: x {always, first call only}, + for the workspace root as input one path / one exclude with persistent faults). phase cli: `buf build <dir> -o -#format=binpb` with path selections on scratch directories, output decoded without bufimage. " +
 		"phase errors: 6 base workspaces x every token position x {delete, duplicate}, API and CLI (absolute and relative input directory). A case is distinct by (workspace, selection) resp. (base, file, token, operator); " +
 		"it is non-trivial if the image has >=2 files resp. the mutation is a compile error.")
 	r.Assume("the Protobuf compiler of the property is github.com/bufbuild/protocompile (the compiler buf links); it is run bare (own map resolver, standard imports, same SourceInfoMode, compiling exactly the reference targets) as the oracle")
 	r.Assume("dependencies with a commit are served by an in-process provider (bufmoduletesting.OmniProvider) and pinned in buf.lock; API observation point only (the CLI's registry client cannot be replaced offline)")
+	r.Assume("read faults are injected at the storage.ReadBucket interface of the workspace bucket (API observation point; the process runs as root, so unreadable files cannot be produced on disk for the CLI); with a fault either outcome is accepted, error or an image that is correct for the fault-free texts")
 	r.Assume("selections buf refuses by design (module directory as --path/--exclude-path, exclude containing a path) may error; when they build, the image is checked")
 	r.Assume("the compiler reports unused imports only for the files it is asked to compile, so a non-targeted import never carries unused-dependency markers; this is taken as 'what the compiler produces'")
 
@@ -393,9 +414,15 @@ func run(r *evid.Run) {
 		}
 	}
 	twoOfFour := func(gi, a int) []int { return []int{quickDecors[(gi+a)%4], quickDecors[(gi+a+2)%4]} }
+	// quick, n = 3: one decoration per (graph, assignment), rotating over the four (each decoration still meets every
+	// graph shape and every assignment many times; 3/4 of the CPU time of a world is buf compiling descriptor.proto from
+	// source for the decorations that import it).
+	oneOfFour := func(gi, a int) []int { return []int{quickDecors[(gi+a)%4]} }
 	allKinds := []int{kPlain, kPublic, kUnused}
 	for n := 1; n <= 3; n++ {
-		if quick {
+		if quick && n == 3 {
+			addGraphPhase(n, allKinds, oneOfFour)
+		} else if quick {
 			addGraphPhase(n, allKinds, twoOfFour)
 		} else {
 			addGraphPhase(n, allKinds, func(int, int) []int { return allDecors })
@@ -462,6 +489,9 @@ func run(r *evid.Run) {
 						s := &Spec{N: n, Kind: k, Mod: mods[a], ModDirs: dirs[a], Shadow: sh}
 						decorate(s, d)
 						it := worldItem{phase: "shadow", spec: s, mode: selSingles, cliMode: selSub}
+						if quick && nShadow%2 == 1 {
+							it.mode = selSub // quick: every other shadow world only with the input directories (the fault phase builds all of them again)
+						}
 						if !quick {
 							it.mode, it.cliMode = selFull, selSingles
 						}
@@ -475,7 +505,7 @@ func run(r *evid.Run) {
 	r.Set("shadow_phase_worlds", nShadow)
 
 	phaseOn := func(p string) bool {
-		f := os.Getenv("C01_PHASES") // debugging aid: comma separated subset of graph,paths,shadow,remote,dup,cli,errors
+		f := os.Getenv("C01_PHASES") // debugging aid: comma separated subset of graph,paths,shadow,remote,dup,fault,cli,errors
 		return f == "" || strings.Contains(","+f+",", ","+p+",")
 	}
 	if os.Getenv("C01_PHASES") != "" {
@@ -538,7 +568,8 @@ func run(r *evid.Run) {
 		"clause_flag_targets", "clause_flag_imports", "clause_descriptor_files", "clause_unused_nonempty",
 		"clause_syntax_unspecified", "clause_owner_files", "clause_wkt_builtin", "clause_wkt_workspace_supplied",
 		"selection_with_paths", "selection_with_excludes", "selection_module_dir_input",
-		"clause_owner_files_with_commit", "dup_cases", "cli_images", "error_cases_compile_error", "error_cases_still_compile", "cli_error_runs",
+		"clause_owner_files_with_commit", "dup_cases", "dup_cases_wkt", "fault_builds", "fault_outcome_error_workspace-wkt", "fault_outcome_error_target-file",
+		"fault_outcome_error_imported-file", "fault_outcome_error_config-file", "fault_outcome_image_fault_not_reached", "cli_images", "error_cases_compile_error", "error_cases_still_compile", "cli_error_runs",
 	} {
 		if rn.cnt[k] == 0 && !r.Expired() {
 			r.Incomplete("vacuous: counter " + k + " is zero")
